@@ -8,6 +8,10 @@ A failing obligation means the code moved away from the model (GoZero/C06/Model.
                  case splits were written against
   …Facts         the return statements and the property-carrying calls with their arguments (which key, which
                  expiry, which delay, what is returned on which path) of every function on the modelled path
+  round 2        cache.New (one node → cacheNode, several → cacheCluster over a consistent hash), the six
+                 cacheCluster operations (dispatch by key; DelCtx: grouping assignment, one node DelCtx per group),
+                 DoEx/createCall/makeCall returns (the shared `c.val`), sqlc.NewConn/GetCache/SetCache*, and the
+                 monc.Model call sites (FindOne through TakeCtx; each of the 9 writes followed by DelCache)
 -/
 import GoZero.Extracted.C06
 import GoZero.C06.Spec
@@ -143,6 +147,7 @@ theorem tie_processCacheShape : processCacheShape = [
   "}",
   "return"] := by rfl
 
+/-- both branches of `cacheNode.DelCtx`: the per-key loop (every key its own DEL and, on failure, its own retry; no early exit — Model.delLoop) and the single DEL (Model.delOne). -/
 theorem tie_delShape : delShape = [
   "if len(keys) == 0 {",
   "return",
@@ -377,5 +382,253 @@ theorem tie_makeCallShape : makeCallShape = ["defer{", "func{", "call g.lock.Loc
     "call c.wg.Done", "}", "call func", "}", "call fn", "store c.val", "store c.err"] := by rfl
 
 theorem tie_doExShape : doExShape = ["call g.createCall", "if done {", "return", "}", "call g.makeCall", "return"] := by rfl
+
+/-! ## round 2: cluster layer, constructors, shared flight result, monc call sites -/
+
+/-- the Redis types the model's `Cfg.cluster` distinguishes (harness cfg `type=node|cluster`). -/
+theorem tie_redisTypes : redisClusterType = "cluster" ∧ redisNodeType = "node" := by decide
+
+/-- `cache.New`: one node → a plain cacheNode; several → one cacheNode per configured Redis, each added to the consistent hash with its weight (the harness builds its caches through this function). -/
+theorem tie_newShape : newShape = [
+  "if len(c) == 0 || TotalWeights(c) <= 0 {",
+  "call log.Fatal",
+  "}",
+  "if len(c) == 1 {",
+  "call redis.MustNewRedis",
+  "call NewNode",
+  "return",
+  "}",
+  "call hash.NewConsistentHash",
+  "range c {",
+  "call redis.MustNewRedis",
+  "call NewNode",
+  "call dispatcher.AddWithWeight",
+  "}",
+  "return"] := by rfl
+
+/-- `cacheCluster.DelCtx`: 0 keys → nothing; 1 key → its node; else the keys are grouped under the node the dispatcher picks for each (`clusterDel`: `ks.filter (place · = n)`), and every group is deleted through its node — Model.clusterDel / nodesOf. -/
+theorem tie_clusterDelShape : clusterDelShape = [
+  "switch len(keys) {",
+  "case 0:",
+  "return",
+  "case 1:",
+  "call cc.dispatcher.Get",
+  "if !ok {",
+  "return",
+  "}",
+  "call c.(Cache).DelCtx",
+  "return",
+  "default:",
+  "range keys {",
+  "call cc.dispatcher.Get",
+  "if !ok {",
+  "call be.Add",
+  "continue",
+  "}",
+  "mapset nodes",
+  "}",
+  "range nodes {",
+  "call c.(Cache).DelCtx",
+  "if err != nil {",
+  "call be.Add",
+  "}",
+  "}",
+  "call be.Err",
+  "return",
+  "}"] := by rfl
+
+theorem tie_newFacts : newFacts = [
+  "call TotalWeights(c)",
+  "return NewNode(redis.MustNewRedis(c[0].RedisConf), barrier, st, errNotFound, opts...)",
+  "call NewNode(redis.MustNewRedis(c[0].RedisConf), barrier, st, errNotFound, opts)",
+  "call redis.MustNewRedis(c[0].RedisConf)",
+  "call hash.NewConsistentHash()",
+  "call NewNode(redis.MustNewRedis(node.RedisConf), barrier, st, errNotFound, opts)",
+  "call redis.MustNewRedis(node.RedisConf)",
+  "call dispatcher.AddWithWeight(cn, node.Weight)",
+  "return cacheCluster{ dispatcher: dispatcher, errNotFound: errNotFound, }"] := by rfl
+
+theorem tie_clusterDelFacts : clusterDelFacts = [
+  "return nil",
+  "call cc.dispatcher.Get(key)",
+  "return cc.errNotFound",
+  "return c.(Cache).DelCtx(ctx, key)",
+  "call c.(Cache).DelCtx(ctx, key)",
+  "call cc.dispatcher.Get(key)",
+  "call be.Add(fmt.Errorf(\"key %q not found\", key))",
+  "call c.(Cache).DelCtx(ctx, ks)",
+  "call be.Add(err)",
+  "return be.Err()",
+  "call be.Err()"] := by rfl
+
+/-- the grouping itself: a key is appended to the group of the node it was dispatched to. -/
+theorem tie_clusterDelGroups : clusterDelGroups = [
+  "nodes[c] = append(nodes[c], key)"] := by rfl
+
+/-- every single-key operation of the cluster goes to the node `dispatcher.Get(key)` returns, with the same key and arguments (Model: `c.place k` / `c.slot k`). -/
+theorem tie_clusterGetFacts : clusterGetFacts = [
+  "call cc.dispatcher.Get(key)",
+  "return cc.errNotFound",
+  "return c.(Cache).GetCtx(ctx, key, val)",
+  "call c.(Cache).GetCtx(ctx, key, val)"] := by rfl
+
+/-- every single-key operation of the cluster goes to the node `dispatcher.Get(key)` returns, with the same key and arguments (Model: `c.place k` / `c.slot k`). -/
+theorem tie_clusterSetFacts : clusterSetFacts = [
+  "call cc.dispatcher.Get(key)",
+  "return cc.errNotFound",
+  "return c.(Cache).SetCtx(ctx, key, val)",
+  "call c.(Cache).SetCtx(ctx, key, val)"] := by rfl
+
+/-- every single-key operation of the cluster goes to the node `dispatcher.Get(key)` returns, with the same key and arguments (Model: `c.place k` / `c.slot k`). -/
+theorem tie_clusterSetWithExpireFacts : clusterSetWithExpireFacts = [
+  "call cc.dispatcher.Get(key)",
+  "return cc.errNotFound",
+  "return c.(Cache).SetWithExpireCtx(ctx, key, val, expire)",
+  "call c.(Cache).SetWithExpireCtx(ctx, key, val, expire)"] := by rfl
+
+/-- every single-key operation of the cluster goes to the node `dispatcher.Get(key)` returns, with the same key and arguments (Model: `c.place k` / `c.slot k`). -/
+theorem tie_clusterTakeFacts : clusterTakeFacts = [
+  "call cc.dispatcher.Get(key)",
+  "return cc.errNotFound",
+  "return c.(Cache).TakeCtx(ctx, val, key, query)",
+  "call c.(Cache).TakeCtx(ctx, val, key, query)"] := by rfl
+
+/-- every single-key operation of the cluster goes to the node `dispatcher.Get(key)` returns, with the same key and arguments (Model: `c.place k` / `c.slot k`). -/
+theorem tie_clusterTakeWithExpireFacts : clusterTakeWithExpireFacts = [
+  "call cc.dispatcher.Get(key)",
+  "return cc.errNotFound",
+  "return c.(Cache).TakeWithExpireCtx(ctx, val, key, query)",
+  "call c.(Cache).TakeWithExpireCtx(ctx, val, key, query)"] := by rfl
+
+theorem tie_newConnFacts : newConnFacts = [
+  "call cache.New(c, singleFlights, stats, sql.ErrNoRows, opts)",
+  "return NewConnWithCache(db, cc)"] := by rfl
+
+theorem tie_getCacheFacts : getCacheFacts = [
+  "return cc.cache.GetCtx(ctx, key, v)",
+  "call cc.cache.GetCtx(ctx, key, v)"] := by rfl
+
+theorem tie_setCacheFacts : setCacheFacts = [
+  "return cc.cache.SetCtx(ctx, key, val)",
+  "call cc.cache.SetCtx(ctx, key, val)"] := by rfl
+
+theorem tie_setCacheWithExpireFacts : setCacheWithExpireFacts = [
+  "return cc.cache.SetWithExpireCtx(ctx, key, val, expire)",
+  "call cc.cache.SetWithExpireCtx(ctx, key, val, expire)"] := by rfl
+
+theorem tie_doExFacts : doExFacts = [
+  "call g.createCall(key)",
+  "return c.val, false, c.err",
+  "call g.makeCall(c, key, fn)",
+  "return c.val, true, c.err"] := by rfl
+
+theorem tie_makeCallFacts : makeCallFacts = [
+  "call c.wg.Done()",
+  "call fn()"] := by rfl
+
+theorem tie_createCallFacts : createCallFacts = [
+  "call c.wg.Wait()",
+  "return c, true",
+  "call c.wg.Add(1)",
+  "return c, false"] := by rfl
+
+theorem tie_moncNewModelFacts : moncNewModelFacts = [
+  "call cache.New(conf, singleFlight, stats, mongo.ErrNoDocuments, opts)",
+  "return NewModelWithCache(uri, db, collection, c)"] := by rfl
+
+theorem tie_moncNewNodeModelFacts : moncNewNodeModelFacts = [
+  "call cache.NewNode(rds, singleFlight, stats, mongo.ErrNoDocuments, opts)",
+  "return NewModelWithCache(uri, db, collection, c)"] := by rfl
+
+/-- monc (Mongo) reuses the same cache.Cache path: reads through TakeCtx, every write is followed by DelCache of the key(s) — the shape of sqlc ExecCtx (`execOp`). -/
+theorem tie_moncDelCacheFacts : moncDelCacheFacts = [
+  "return mm.cache.DelCtx(ctx, keys...)",
+  "call mm.cache.DelCtx(ctx, keys)"] := by rfl
+
+/-- monc (Mongo) reuses the same cache.Cache path: reads through TakeCtx, every write is followed by DelCache of the key(s) — the shape of sqlc ExecCtx (`execOp`). -/
+theorem tie_moncGetCacheFacts : moncGetCacheFacts = [
+  "return mm.cache.Get(key, v)",
+  "call mm.cache.Get(key, v)"] := by rfl
+
+/-- monc (Mongo) reuses the same cache.Cache path: reads through TakeCtx, every write is followed by DelCache of the key(s) — the shape of sqlc ExecCtx (`execOp`). -/
+theorem tie_moncSetCacheFacts : moncSetCacheFacts = [
+  "return mm.cache.Set(key, v)",
+  "call mm.cache.Set(key, v)"] := by rfl
+
+/-- monc (Mongo) reuses the same cache.Cache path: reads through TakeCtx, every write is followed by DelCache of the key(s) — the shape of sqlc ExecCtx (`execOp`). -/
+theorem tie_moncFindOneFacts : moncFindOneFacts = [
+  "return mm.cache.TakeCtx(ctx, v, key, func(v any) error { return mm.Model.FindOne(ctx, v, filter, opts...) })",
+  "call mm.cache.TakeCtx(ctx, v, key, func{…})",
+  "return mm.Model.FindOne(ctx, v, filter, opts...)",
+  "call mm.Model.FindOne(ctx, v, filter, opts)"] := by rfl
+
+/-- monc (Mongo) reuses the same cache.Cache path: reads through TakeCtx, every write is followed by DelCache of the key(s) — the shape of sqlc ExecCtx (`execOp`). -/
+theorem tie_moncDeleteOneFacts : moncDeleteOneFacts = [
+  "call mm.Model.DeleteOne(ctx, filter, opts)",
+  "return 0, err",
+  "call mm.DelCache(ctx, key)",
+  "return 0, err",
+  "return val, nil"] := by rfl
+
+/-- monc (Mongo) reuses the same cache.Cache path: reads through TakeCtx, every write is followed by DelCache of the key(s) — the shape of sqlc ExecCtx (`execOp`). -/
+theorem tie_moncFindOneAndDeleteFacts : moncFindOneAndDeleteFacts = [
+  "call mm.Model.FindOneAndDelete(ctx, v, filter, opts)",
+  "return err",
+  "return mm.DelCache(ctx, key)",
+  "call mm.DelCache(ctx, key)"] := by rfl
+
+/-- monc (Mongo) reuses the same cache.Cache path: reads through TakeCtx, every write is followed by DelCache of the key(s) — the shape of sqlc ExecCtx (`execOp`). -/
+theorem tie_moncFindOneAndReplaceFacts : moncFindOneAndReplaceFacts = [
+  "call mm.Model.FindOneAndReplace(ctx, v, filter, replacement, opts)",
+  "return err",
+  "return mm.DelCache(ctx, key)",
+  "call mm.DelCache(ctx, key)"] := by rfl
+
+/-- monc (Mongo) reuses the same cache.Cache path: reads through TakeCtx, every write is followed by DelCache of the key(s) — the shape of sqlc ExecCtx (`execOp`). -/
+theorem tie_moncFindOneAndUpdateFacts : moncFindOneAndUpdateFacts = [
+  "call mm.Model.FindOneAndUpdate(ctx, v, filter, update, opts)",
+  "return err",
+  "return mm.DelCache(ctx, key)",
+  "call mm.DelCache(ctx, key)"] := by rfl
+
+/-- monc (Mongo) reuses the same cache.Cache path: reads through TakeCtx, every write is followed by DelCache of the key(s) — the shape of sqlc ExecCtx (`execOp`). -/
+theorem tie_moncInsertOneFacts : moncInsertOneFacts = [
+  "call mm.Model.InsertOne(ctx, document, opts)",
+  "return nil, err",
+  "call mm.DelCache(ctx, key)",
+  "return nil, err",
+  "return res, nil"] := by rfl
+
+/-- monc (Mongo) reuses the same cache.Cache path: reads through TakeCtx, every write is followed by DelCache of the key(s) — the shape of sqlc ExecCtx (`execOp`). -/
+theorem tie_moncReplaceOneFacts : moncReplaceOneFacts = [
+  "call mm.Model.ReplaceOne(ctx, filter, replacement, opts)",
+  "return nil, err",
+  "call mm.DelCache(ctx, key)",
+  "return nil, err",
+  "return res, nil"] := by rfl
+
+/-- monc (Mongo) reuses the same cache.Cache path: reads through TakeCtx, every write is followed by DelCache of the key(s) — the shape of sqlc ExecCtx (`execOp`). -/
+theorem tie_moncUpdateByIDFacts : moncUpdateByIDFacts = [
+  "call mm.Model.UpdateByID(ctx, id, update, opts)",
+  "return nil, err",
+  "call mm.DelCache(ctx, key)",
+  "return nil, err",
+  "return res, nil"] := by rfl
+
+/-- monc (Mongo) reuses the same cache.Cache path: reads through TakeCtx, every write is followed by DelCache of the key(s) — the shape of sqlc ExecCtx (`execOp`). -/
+theorem tie_moncUpdateManyFacts : moncUpdateManyFacts = [
+  "call mm.Model.UpdateMany(ctx, filter, update, opts)",
+  "return nil, err",
+  "call mm.DelCache(ctx, keys)",
+  "return nil, err",
+  "return res, nil"] := by rfl
+
+/-- monc (Mongo) reuses the same cache.Cache path: reads through TakeCtx, every write is followed by DelCache of the key(s) — the shape of sqlc ExecCtx (`execOp`). -/
+theorem tie_moncUpdateOneFacts : moncUpdateOneFacts = [
+  "call mm.Model.UpdateOne(ctx, filter, update, opts)",
+  "return nil, err",
+  "call mm.DelCache(ctx, key)",
+  "return nil, err",
+  "return res, nil"] := by rfl
 
 end GoZero.C06.Tie
